@@ -1137,8 +1137,8 @@ Definition run (cf : config) (fuel : nat) (h : list (input * list tev)) (final :
 
 (* ---------------------------------------------------------------------------------- *)
 (* Executable check of the host_query invariant between two operations of a history     *)
-(* (used by the correspondence driver on every state it reaches: the getaddrinfo part   *)
-(* of the model is not covered by the proofs, see Properties_C01.v)                     *)
+(* (used by the correspondence driver on every state it reaches; the proved counterpart *)
+(* is Stable / HostInv in Lifecycle_proofs.v / Lifecycle_inv.v)                         *)
 (* ---------------------------------------------------------------------------------- *)
 Fixpoint khost (k : cbk) : option obj :=
   match k with
